@@ -390,6 +390,10 @@ pub struct ListenerSession {
     /// is registered (i.e. before `accept_incoming_attach` is called).
     /// Keyed by the remote's handle (InputHandle). These are replayed when
     /// `allocate_incoming_link` inserts the relay into `link_by_input_handle`.
+    ///
+    /// An entry exists exactly for the handles whose attach has been handed to
+    /// `link_listener` and has not been accepted yet; flows for any other
+    /// unattached handle are refused.
     pub(crate) pending_link_flows: HashMap<InputHandle, Vec<LinkFlow>>,
 }
 
@@ -519,10 +523,14 @@ impl endpoint::Session for ListenerSession {
                     Ok(())
                 }
                 None => {
+                    let input_handle = InputHandle::from(attach.handle.clone());
                     self.link_listener.send(attach).await.map_err(|_| {
                         // SessionHandle must have been dropped, then treat it as if the acceptor doesn't exist
                         SessionInnerError::HandleInUse
-                    })
+                    })?;
+                    // Flows pipelined behind this attach are kept until the link is accepted
+                    self.pending_link_flows.entry(input_handle).or_default();
+                    Ok(())
                 }
             },
             None => {
@@ -532,10 +540,14 @@ impl endpoint::Session for ListenerSession {
                 // to an unused handle, and an attach frame is issued carrying
                 // the state of the newly created endpoint.
 
+                let input_handle = InputHandle::from(attach.handle.clone());
                 self.link_listener.send(attach).await.map_err(|_| {
                     // SessionHandle must have been dropped, then treat it as if the acceptor doesn't exist
                     SessionInnerError::UnattachedHandle
-                })
+                })?;
+                // Flows pipelined behind this attach are kept until the link is accepted
+                self.pending_link_flows.entry(input_handle).or_default();
+                Ok(())
             }
         }
     }
@@ -563,10 +575,12 @@ impl endpoint::Session for ListenerSession {
                 // when the link is eventually accepted.
                 if let Some(link_flow) = link_flow_backup {
                     let input_handle = InputHandle::from(link_flow.handle.clone());
-                    self.pending_link_flows
-                        .entry(input_handle)
-                        .or_default()
-                        .push(link_flow);
+                    match self.pending_link_flows.get_mut(&input_handle) {
+                        Some(pending_flows) => pending_flows.push(link_flow),
+                        // No attach is waiting to be accepted under this handle: the flow is
+                        // refused as it is by a session that does not listen
+                        None => return Err(SessionInnerError::UnattachedHandle),
+                    }
                 } else {
                     // Session-level flow with no link handle — nothing to buffer.
                 }
